@@ -24,8 +24,8 @@ Mirrors the Rust function by function, *in the Rust's order of constant-pool put
   `Some(vec)` *is* written), annotation lists and record components when non-empty, `LocalVariableTable` /
   `LocalVariableTypeTable` when at least one entry has a descriptor / signature, `StackMapTable` when at least one
   instruction carries a frame, `BootstrapMethods` when a bootstrap method was put;
-  **the unknown attributes of `Code` (`Code.attributes`) are never written** (there is no loop for them in
-  `write_code`);
+  the unknown attributes (`attributes`) come last at every level — class, field, method, record component and (since the
+  repair `fix: class writer writes the unknown attributes of a method body`) `Code`;
 * attribute order: as in the Rust source (see `classAttrs`, `writeField`, `writeMethod`, `writeCode`,
   `writeRecordComponent`);
 * the constant pool is completed last and written in front (`PoolWrite::write`: `constant_pool_count`, the entries in
@@ -536,17 +536,17 @@ def writeCode (c : Code) (p : Pool) (bs : List Bsm) : Except Fail (Bytes × Pool
     -- `labels.get` on the ids of the tree
     let lp : Nat → Option Nat := fun id => res.label (lab id)
     let (eb, p) ← writeSlice16 (writeException lp) p c.exceptions
-    -- attributes of `Code`: StackMapTable, LineNumberTable, LocalVariableTable, LocalVariableTypeTable, type annotations;
-    -- `code.attributes` is not written
+    -- attributes of `Code`: StackMapTable, LineNumberTable, LocalVariableTable, LocalVariableTypeTable, type annotations,
+    -- then the loop over `code.attributes` (the unknown attributes)
     let frames := FrameWrite.framesOf res (c.insns.map fun e => e.frame.map (frameOf lab))
     let (smt, p) ← FrameWrite.attr res.label p frames
     let smtB : List Bytes := match smt with | none => [] | some (i, b) => [be16 i ++ be32 b.length ++ b]
     let (as, p) ← runAttrs
-      [ifSome c.lines (fun ls => attrBuf ClassRead.sLineNumberTable (fun p => writeSlice16 (writeLine lp) p ls)),
+      ([ifSome c.lines (fun ls => attrBuf ClassRead.sLineNumberTable (fun p => writeSlice16 (writeLine lp) p ls)),
        lvAttr lp false ClassRead.sLocalVariableTable c.locals,
        lvAttr lp true ClassRead.sLocalVariableTypeTable c.locals,
        typeAnnosAttr (writeTargetCode lp) ClassRead.sRVTA c.rvta,
-       typeAnnosAttr (writeTargetCode lp) ClassRead.sRITA c.ritva] p
+       typeAnnosAttr (writeTargetCode lp) ClassRead.sRITA c.ritva] ++ unknownAttrs c.attrs) p
     let ab ← attrsBytes (smtB ++ as)
     pure (be16 c.maxStack ++ be16 c.maxLocals ++ be32 res.code.length ++ res.code ++ eb ++ ab, p, bs)
 
